@@ -68,6 +68,7 @@ structure Dev where
   addr : Nat
   setup : Setup
   pw : Bool             -- 'password' already in the device's data
+  pub : Bool            -- published in the protocol's device map (the dispatch of the device-name event is over)
   parked : Nat          -- tasks in the device's own task set
   mixers : List Sub
   thermos : List Sub
@@ -79,6 +80,13 @@ inductive CPhase
   | joined (t0 : Nat)           -- the write queue's unfinished count reached 0: join() returns, shutdown resumes next
   | wclosing (t0 dl : Nat)      -- shutdown inside wait_closed of the transport (hangs until dl)
   | done (t0 t1 : Nat)          -- close() returned at t1
+deriving DecidableEq, Repr
+
+inductive Feed
+  | pw (addr : Nat)             -- password response from `addr`
+  | sensors (m t : Nat)         -- ecoMAX sensor data with mixers 0..m-1 and thermostats 0..t-1
+  | foreign                     -- valid frame for another recipient: read() returns None
+  | bad                         -- checksum error: read() raises a ProtocolError
 deriving DecidableEq, Repr
 
 structure St where
@@ -101,14 +109,13 @@ structure St where
   writeQ : List Nat             -- kinds of the frames in the write queue
   devices : List Dev
   closing : CPhase
+  readQ : List Feed             -- frames in the read queue that no consumer has taken yet
+  hand : List Feed              -- frames consumers hold but cannot finish: the first one sits in a slow subscriber of
+                                -- the device-name event (holding the entry lock), the others wait for the lock
+  rUnf : Nat                    -- `Queue._unfinished_tasks` of the read queue
+  rj : Bool                     -- `read.join()` of the pending shutdown has returned
+  gates : List Nat              -- addresses whose device-name event has a subscriber that does not return yet
 deriving Repr
-
-inductive Feed
-  | pw (addr : Nat)             -- password response from `addr`
-  | sensors (m t : Nat)         -- ecoMAX sensor data with mixers 0..m-1 and thermostats 0..t-1
-  | foreign                     -- valid frame for another recipient: read() returns None
-  | bad                         -- checksum error: read() raises a ProtocolError
-deriving DecidableEq, Repr
 
 inductive Target | dev (addr : Nat) | mixer (i : Nat) | thermo (i : Nat)
 deriving DecidableEq, Repr
@@ -128,6 +135,9 @@ inductive Ev
   | advance (dt : Nat)
   | tick (k : Timer)
   | prodStart | lostRun | lostRun2 | shutdownRun | setupGo
+  | gate (addr : Nat)           -- a subscriber of the device-name event of `addr` that will not return until `release`
+  | release                     -- every such subscriber returns
+  | take                        -- a parked consumer takes the next frame from the read queue
 deriving DecidableEq, Repr
 
 inductive Out
@@ -140,6 +150,7 @@ inductive Out
   | cfail                       -- connect() raised ConnectionFailedError
   | closed                      -- close() returned
   | fault                       -- the producer ended with an I/O fault (not observable as such)
+  | put (addr kind : Nat)       -- the producer put a frame from `addr` on the read queue (not observable as such)
 deriving DecidableEq, Repr
 
 /-! ### constants (from the translator) -/
@@ -183,12 +194,16 @@ def reconOwner : Recon → Option Owner
   | .attempting _ o => some o
   | .backoff _ o => some o
 
-def annAll (s : St) (v flag : Bool) : List Out := s.devices.map (fun d => .ann d.addr v flag)
+/-- the devices of the protocol's device map (`data`) -/
+def published (s : St) : List Dev := s.devices.filter (·.pub)
+
+def annAll (s : St) (v flag : Bool) : List Out := (published s).map (fun d => .ann d.addr v flag)
 
 def init (cfg : Nat) (rcOn : Bool) (script : List OpenRes) : St :=
   { cfg, rcOn, script, now := 0, connected := false, writer := none, wopen := false, wdrain := .ok, wcloseM := .ok,
     nextTid := 0, producers := 0, pphase := .dead, consumers := 0, lostPending := false,
-    lostMid := false, recon := .idle, writeQ := [], devices := [], closing := .no }
+    lostMid := false, recon := .idle, writeQ := [], devices := [], closing := .no,
+    readQ := [], hand := [], rUnf := 0, rj := false, gates := [] }
 
 /-! ### the producer -/
 
@@ -223,7 +238,7 @@ def prodIO (s : St) : St × List Out :=
 /-! ### frame handling (consumer + device) -/
 
 def newDev (addr : Nat) : Dev :=
-  { addr, setup := if addr = ecomaxAddr then .waiting else .done, pw := false, parked := 0,
+  { addr, setup := if addr = ecomaxAddr then .waiting else .done, pw := false, pub := false, parked := 0,
     mixers := [], thermos := [] }
 
 def hasDev (ds : List Dev) (addr : Nat) : Bool := ds.any (·.addr == addr)
@@ -250,13 +265,92 @@ def handle (s : St) : Feed → St × List Out
                setup := if d.setup = .waiting then .armed else d.setup })
     ({ s with devices := ds }, r.2 ++ [.deliver ecomaxAddr kindSensors])
 
-/-- a frame arrives while the producer is reading: the producer first continues with the
-write queue as it is, then a consumer handles the frame -/
+/-- address and kind of a frame that is queued for the consumers (frames for somebody else and
+malformed frames never get that far) -/
+def Feed.addr? : Feed → Option (Nat × Nat)
+  | .pw a => some (a, kindPassword)
+  | .sensors _ _ => some (ecomaxAddr, kindSensors)
+  | .foreign => none
+  | .bad => none
+
+/-- a frame arrives while the producer is reading: the producer puts it on the read queue (if
+it is for us) and continues with the write queue; handling is the consumers' business (`take`) -/
 def feed (s : St) (f : Feed) : St × List Out :=
-  if s.producers = 0 ∨ !isReading s.pphase ∨ s.consumers = 0 then (s, []) else
+  if s.producers = 0 ∨ !isReading s.pphase then (s, []) else
   let a := prodIO s
-  let b := handle a.1 f
-  (b.1, a.2 ++ b.2)
+  match f.addr? with
+  | some (ad, k) => ({ a.1 with readQ := a.1.readQ ++ [f], rUnf := a.1.rUnf + 1 }, a.2 ++ [.put ad k])
+  | none => a
+
+/-! ### the frame consumers -/
+
+/-- consumers parked on the read queue -/
+def idle (s : St) : Nat := s.consumers - s.hand.length
+
+def isJoining : CPhase → Bool
+  | .joining _ => true
+  | .joined _ => true
+  | _ => false
+
+/-- `read.join()` of a pending shutdown wakes up the moment the read queue's unfinished count reaches 0 -/
+def latchR (s : St) : St :=
+  if isJoining s.closing ∧ s.rUnf = 0 then { s with rj := true } else s
+
+/-- `get_device_entry` up to the dispatch of the device-name event: a new device is created (not
+yet in the device map); the third component says that a subscriber of that event does not return -/
+def enter (s : St) (ad : Nat) : St × List Out × Bool :=
+  if hasDev s.devices ad then (s, [], false)
+  else ({ s with devices := s.devices ++ [newDev ad] }, [.newdev ad, .ann ad true true], s.gates.contains ad)
+
+/-- the device-name event has been dispatched: the device is in the map -/
+def publish (s : St) (ad : Nat) : St :=
+  { s with devices := updDev s.devices ad (fun d => { d with pub := true }) }
+
+/-- the rest of the consumer's loop body: `handle_frame`, `task_done`, then park again - or exit,
+when the connection has been lost meanwhile -/
+def finishFrame (s : St) (f : Feed) : St × List Out :=
+  match f.addr? with
+  | none => (s, [])
+  | some (ad, _) =>
+    let r := handle (publish s ad) f
+    let s2 := latchR { r.1 with rUnf := r.1.rUnf - 1 }
+    (if s2.connected then s2 else { s2 with consumers := s2.consumers - 1 }, r.2)
+
+/-- a consumer that holds frame `f` and the entry lock: enter, then finish unless a subscriber blocks -/
+def process (s : St) (f : Feed) : St × List Out × Bool :=
+  match f.addr? with
+  | none => (s, [], false)
+  | some (ad, _) =>
+    let e := enter s ad
+    if e.2.2 then (e.1, e.2.1, true)
+    else let r := finishFrame e.1 f; (r.1, e.2.1 ++ r.2, false)
+
+/-- a parked consumer takes the head of the read queue; it handles it at once, or waits for the
+entry lock behind a consumer that sits in a slow subscriber, or becomes that consumer -/
+def take (s : St) : St × List Out :=
+  match s.readQ with
+  | [] => (s, [])
+  | f :: rest =>
+    if idle s = 0 then (s, []) else
+    if s.hand ≠ [] then ({ s with readQ := rest, hand := s.hand ++ [f] }, [])
+    else
+      let r := process { s with readQ := rest } f
+      (if r.2.2 then { r.1 with hand := [f] } else r.1, r.2.1)
+
+/-- the blocked consumers finish one after the other, in the order of the entry lock -/
+def finishAll : List Feed → St → St × List Out
+  | [], s => (s, [])
+  | f :: fs, s =>
+    let r := process s f
+    let q := finishAll fs r.1
+    (q.1, r.2.1 ++ q.2)
+
+/-- every slow subscriber returns -/
+def release (s : St) : St × List Out :=
+  finishAll s.hand { s with gates := [], hand := [] }
+
+def gateEv (s : St) (a : Nat) : St :=
+  if s.gates.contains a ∨ hasDev s.devices a then s else { s with gates := a :: s.gates }
 
 /-! ### establishment, loss, reconnect -/
 
@@ -312,7 +406,7 @@ def lostRun (s : St) : St × List Out :=
   if !s.connected then (s, []) else
   let s := { s with connected := false }
   let o := annAll s false false
-  if s.devices.isEmpty then let r := lostFinish s; (r.1, o ++ r.2)
+  if (published s).isEmpty then let r := lostFinish s; (r.1, o ++ r.2)
   else ({ s with lostMid := true }, o)
 
 def lostRun2 (s : St) : St × List Out :=
@@ -360,7 +454,7 @@ def cancelConn (s : St) : St :=
   if reconOwner s.recon = some .conn then { s with recon := .idle } else s
 
 /-- `AsyncProtocol.shutdown` starts with `Queues.join()` -/
-def beginJoin (s : St) : St := latch { s with closing := .joining s.now }
+def beginJoin (s : St) : St := latch { s with closing := .joining s.now, rj := s.rUnf == 0 }
 
 /-- `Connection.close`: cancel the connection's own tasks, then `protocol.shutdown()` -/
 def closeEv (s : St) : St × List Out :=
@@ -368,13 +462,14 @@ def closeEv (s : St) : St × List Out :=
 
 def joinReady (s : St) : Bool :=
   match s.closing with
-  | .joined _ => true
+  | .joined _ => s.rj
   | _ => false
 
 /-- `cancel_tasks` + `wait_until_done` of the protocol: producer, consumers, set-up tasks,
 the connection_lost task wherever it is -/
 def cancelProto (s : St) : St :=
-  { s with producers := 0, pphase := .dead, consumers := 0, lostPending := false, lostMid := false,
+  { s with producers := 0, pphase := .dead, consumers := 0, hand := [], rUnf := s.rUnf - s.hand.length,
+           lostPending := false, lostMid := false,
            devices := s.devices.map (fun d => { d with setup := .done }),
            recon := if reconOwner s.recon = some .proto then .idle else s.recon }
 
@@ -388,7 +483,7 @@ def shutdownTail (s : St) (t0 : Nat) : St × List Out :=
 /-- `AsyncProtocol.shutdown` after `Queues.join()` returned -/
 def shutdownRun (s : St) : St × List Out :=
   match s.closing with
-  | .joined t0 => shutdownTail (cancelProto s) t0
+  | .joined t0 => if s.rj then shutdownTail (cancelProto s) t0 else (s, [])
   | _ => (s, [])
 
 /-! ### timers -/
@@ -427,7 +522,7 @@ def parkSub (subs : List Sub) (i : Nat) : List Sub :=
   subs.map (fun x => if x.idx = i then { x with parked := x.parked + 1 } else x)
 
 def park (s : St) : Target → St
-  | .dev addr => { s with devices := updDev s.devices addr (fun d => { d with parked := d.parked + 1 }) }
+  | .dev addr => { s with devices := updDev s.devices addr (fun d => if d.pub then { d with parked := d.parked + 1 } else d) }
   | .mixer i => { s with devices := updDev s.devices ecomaxAddr (fun d => { d with mixers := parkSub d.mixers i }) }
   | .thermo i => { s with devices := updDev s.devices ecomaxAddr (fun d => { d with thermos := parkSub d.thermos i }) }
 
@@ -455,6 +550,9 @@ def step (s : St) (e : Ev) : St × List Out :=
   | .lostRun2 => lostRun2 s
   | .shutdownRun => shutdownRun s
   | .setupGo => setupGo s
+  | .gate a => (gateEv s a, [])
+  | .release => release s
+  | .take => take s
 
 /-- run a list of micro events; outputs are stamped with the time at which they were emitted -/
 def run (s : St) : List Ev → St × List (Nat × Out)
@@ -469,10 +567,14 @@ def run (s : St) : List Ev → St × List (Nat × Out)
 /-- the library task that runs next, if any (asyncio's FIFO order in the situations that occur) -/
 def internal? (s : St) : Option Ev :=
   if isDone s.closing then none
+  -- a parked consumer woken by the producer's `put` runs before anything the producer started afterwards ...
+  else if s.readQ ≠ [] ∧ idle s > 0 ∧ ¬ (s.producers > 0 ∧ s.pphase = .starting) then some .take
   else if s.lostPending then some .lostRun
   else if joinReady s then some .shutdownRun
   else if s.lostMid then some .lostRun2
   else if s.producers > 0 ∧ s.pphase = .starting then some .prodStart
+  -- ... but consumers started by `connection_established` run after the producer created just before them
+  else if s.readQ ≠ [] ∧ idle s > 0 then some .take
   else if s.devices.any (fun d => d.setup == .armed) then some .setupGo
   else none
 
@@ -559,12 +661,20 @@ def setupAlive (d : Dev) : Nat := if d.setup = .done then 0 else 1
 
 def subTasks (d : Dev) : Nat := (d.mixers.map (·.parked)).sum + (d.thermos.map (·.parked)).sum
 
+/-- live `PhysicalDevice.request` tasks of a set-up in a request round (children of the set-up
+task's `gather`): one per set-up frame whose data is still missing -/
+def reqAlive (d : Dev) : Nat :=
+  match d.setup with
+  | .requesting _ _ => (setupKinds d.pw).length
+  | _ => 0
+
 def setupTasks (s : St) : Nat := (s.devices.map setupAlive).sum
+def reqTasks (s : St) : Nat := (s.devices.map reqAlive).sum
 def devOwnTasks (s : St) : Nat := (s.devices.map (·.parked)).sum
 def subOwnTasks (s : St) : Nat := (s.devices.map subTasks).sum
 
 /-- tasks of devices and sub-devices, including the set-up tasks -/
-def deviceTasks (s : St) : Nat := setupTasks s + devOwnTasks s + subOwnTasks s
+def deviceTasks (s : St) : Nat := setupTasks s + reqTasks s + devOwnTasks s + subOwnTasks s
 
 /-- every task created by the protocol, the connection, a device or a sub-device -/
 def tasks (s : St) : Nat := s.producers + s.consumers + lostTasks s + connTasks s + deviceTasks s
